@@ -8,6 +8,7 @@ import (
 	"hash/fnv"
 	"reflect"
 	"runtime"
+	"runtime/debug"
 	"sort"
 	"strconv"
 	"strings"
@@ -585,3 +586,33 @@ func (w *World) ParkedSummary() string {
 	sort.Strings(s)
 	return strings.Join(s, " ")
 }
+
+// Stack replaces runtime/debug.Stack in the instrumented package: the genuine text contains
+// goroutine ids and pointer values, which would make the bytes of FAIL messages (and with them
+// every later segmentation decision) differ from run to run. Function names and lines are kept.
+func Stack() []byte {
+	if cur.Load() == nil {
+		return debugStack()
+	}
+	pc := make([]uintptr, 32)
+	n := runtime.Callers(2, pc)
+	frames := runtime.CallersFrames(pc[:n])
+	var b strings.Builder
+	b.WriteString("goroutine [running]:\n")
+	for {
+		f, more := frames.Next()
+		if !strings.Contains(f.Function, "verifsim.") {
+			file := f.File
+			if i := strings.LastIndex(file, "/"); i >= 0 {
+				file = file[i+1:]
+			}
+			fmt.Fprintf(&b, "%s()\n\t%s\n", f.Function, file)
+		}
+		if !more {
+			break
+		}
+	}
+	return []byte(b.String())
+}
+
+func debugStack() []byte { return debug.Stack() }
